@@ -167,6 +167,66 @@ RULE = (
     "Non-trivial = n_filters != n_sources (transposition visible) and K non-scalar or baseline != 0; adaptation cases always."
 )
 
+# ------------------------------------------------------------------------------------------------
+# large batches of spectra through the estimator (size-dependent code paths); data from a drawn numpy seed
+
+
+@st.composite
+def large_batch_case(draw):
+    nd = draw(st.sampled_from([51, 101, 401]))
+    nf = draw(st.integers(2, 5))
+    total = draw(st.sampled_from([2 ** 20, 2 ** 22, 2 ** 24, 2 ** 25]))
+    ns = total // (nf * nd) + draw(st.integers(1, 9))
+    return dict(nd=nd, nf=nf, ns=int(ns), nsrc=draw(st.integers(1, 4)), data_seed=draw(st.integers(0, 2 ** 31 - 1)),
+                K=draw(st.sampled_from(["none", "vector"])), baseline=draw(st.sampled_from(["none", "vector"])))
+
+
+def body_large_batch(case):
+    """n intensity vectors: the capture of every physically mixed spectrum equals the linear model, also in one call with tens of
+    thousands of spectra.  Data from numpy's generator seeded with a drawn value; oracle: own trapezoid weights for every row."""
+    import dreye
+
+    rng = np.random.default_rng(case["data_seed"])
+    nd, nf, ns, nsrc = case["nd"], case["nf"], case["ns"], case["nsrc"]
+    x = np.cumsum(rng.uniform(0.5, 1.5, nd))
+    F = rng.uniform(0.05, 1.0, (nf, nd))
+    src = rng.uniform(0.05, 1.0, (nsrc, nd))
+    X = rng.uniform(0.0, 2.0, (ns, nsrc))
+    kw = {}
+    Kv = np.ones(nf)
+    bv = np.zeros(nf)
+    if case["K"] == "vector":
+        Kv = rng.uniform(0.5, 2.0, nf)
+        kw["K"] = Kv
+    if case["baseline"] == "vector":
+        bv = rng.uniform(0.01, 0.5, nf)
+        kw["baseline"] = bv
+    w = np.zeros(nd)
+    dx = np.diff(x)
+    w[:-1] += dx / 2
+    w[1:] += dx / 2
+    A = (F * w) @ src.T                     # receptors x sources
+    with calling(f"ReceptorEstimator.capture / relative_capture ({ns} spectra)"):
+        est = dreye.ReceptorEstimator(F, domain=x, **kw)
+        est.register_system(src)
+        mixed = X @ src
+        Q = np.asarray(est.capture(mixed), dtype=float)
+        R = np.asarray(est.relative_capture(mixed), dtype=float)
+        Qs = np.asarray(est.system_capture(X), dtype=float)
+        Rs = np.asarray(est.system_relative_capture(X), dtype=float)
+    expQ = X @ A.T
+    scale = np.abs(X) @ np.abs(A).T + np.abs(bv)
+    for name, got, exp in (("capture of the mixed spectra", Q, expQ), ("relative capture of the mixed spectra", R, Kv * (expQ + bv)),
+                           ("system_capture", Qs, expQ), ("system_relative_capture", Rs, Kv * (expQ + bv))):
+        check(got.shape == exp.shape, "large-batch:shape", f"{name}: {got.shape} != {exp.shape}")
+        bad = np.abs(got - exp) > 1e-9 * np.max(Kv) * scale
+        if np.any(bad):
+            rows = bad.any(axis=1)
+            raise Violation("large-batch:value", f"{name} differs from the linear model in {int(rows.sum())} of {ns} rows (first {int(np.argmax(rows))}, "
+                                                 f"last {int(ns - 1 - np.argmax(rows[::-1]))}): got {got[np.argmax(rows)].tolist()} expected {exp[np.argmax(rows)].tolist()}")
+    return [f"elements>=2^{int(np.log2(ns * nf * nd))}", f"K:{case['K']}", f"baseline:{case['baseline']}", "nt:large-batch"]
+
+
 PROP = Prop(
     pid="C02",
     title="A registered system is the exact linear model of the receptor responses",
@@ -175,5 +235,6 @@ PROP = Prop(
     subs=[
         Sub("linear_model", model_case(), body_model, quick=800, thorough=80000, quick_shards=2, min_nt_share=0.2),
         Sub("adaptation", adapt_case(), body_adapt, quick=600, thorough=40000, min_nt_share=0.3),
+        Sub("large_batch", large_batch_case(), body_large_batch, quick=24, thorough=320, quick_shards=4, thorough_shards=16, min_nt_share=0.0),
     ],
 )
